@@ -55,7 +55,7 @@ fn any_t<const N: u8>() -> Timer<N> {
     if kani::any() { Timer::Idle } else { Timer::Armed { expires_at: any_instant() } }
 }
 
-//@ harness id=timer.k.next_timer_to_poll kind=complete props=C07 tier=quick timeout=600 text="next_timer_to_poll() (real iterator code, partially initialised VirtualSocket): unless the transport is pending, the dispatcher asks to be woken at the EARLIEST armed timer - in particular no later than an armed delayed-ACK deadline; None iff nothing is armed; only the one-shot recovery-pipe timer is disarmed by the call; with the transport pending only the inactivity timer counts and nothing is disarmed"
+//@ harness id=timer.k.next_timer_to_poll kind=complete props=C07,C08 tier=quick timeout=600 text="next_timer_to_poll() (real iterator code, partially initialised VirtualSocket): unless the transport is pending, the dispatcher asks to be woken at the EARLIEST armed timer - in particular no later than an armed delayed-ACK deadline; None iff nothing is armed; only the one-shot recovery-pipe timer is disarmed by the call; with the transport pending only the inactivity timer counts and nothing is disarmed"
 #[kani::proof]
 #[kani::unwind(8)]
 fn next_timer_to_poll_earliest() {
